@@ -501,6 +501,10 @@ function longStr(rng) {
   return a.join("");
 }
 
+// short tokens that come back again and again in one process, between thousands of other strings
+// (what a real hash256() walk writes: tags, property names); what a write contributes must not
+// depend on what the process has hashed before
+const VOCAB = ["object", "string", "number", "array", "beff-hash256-v1", "typeof", "ref", "anyOf", "é-token", "漢字", "", "a", "id", "kind"];
 function genC13(index) {
   const rng = new Rng(ROOT, "C13", index);
   const n = rng.range(0, 40);
@@ -518,6 +522,9 @@ function genC13(index) {
       let v;
       if (rng.chance(1, 30)) {
         v = longStr(rng);
+        L = Buffer.byteLength(v);
+      } else if (rng.chance(1, 4)) {
+        v = rng.pick(VOCAB);
         L = Buffer.byteLength(v);
       } else v = strOfBytes(rng, L);
       ops.push({ op: rng.chance(1, 4) ? "tag" : "string", v });
@@ -609,6 +616,7 @@ function numOf(v) {
   if (v === "-Infinity") return -Infinity;
   return v;
 }
+const OP_BYTES = new Map(); // vocabulary write -> hex of the bytes it contributed the first time in this process
 function execC13(H, run) {
   const out = { violations: [], writes: 0, bytes: 0 };
   const viol = (cls, detail) => {
@@ -618,9 +626,11 @@ function execC13(H, run) {
   TAPPED = [];
   let digest = null;
   let streamAtDigest = null;
+  let tappedAtDigest = 0;
+  const sha = (bufs) => createHash("sha256").update(Buffer.concat(bufs)).digest("hex");
   run.ops.forEach((op, i) => {
     const after = digest !== null;
-    let threw = false;
+    const before = TAPPED.length;
     try {
       if (op.op === "tag") w.updateTag(op.v);
       else if (op.op === "string") w.updateString(op.v);
@@ -632,17 +642,31 @@ function execC13(H, run) {
         if (!after) {
           digest = d;
           streamAtDigest = Buffer.concat(TAPPED);
-        } else viol("second-digest-did-not-throw", { op_index: i, value: d });
+          tappedAtDigest = TAPPED.length;
+        } else if (!MIRROR) {
+          // The statement does not say what a writer does after its digest was taken. Refusing
+          // (throwing) is fine, so is answering again with the same digest, so is going on as a
+          // running hash, so is starting over. What is not fine is an answer that is the SHA-256
+          // of nothing the caller wrote.
+          const ok = d === digest || d === sha(TAPPED) || d === sha(TAPPED.slice(tappedAtDigest));
+          if (!ok) viol("digest-after-digest-is-not-sha256-of-what-was-written", { op_index: i, value: d, first: digest });
+          tappedAtDigest = TAPPED.length;
+        }
       }
       if (op.op !== "digest") {
         out.writes++;
         if (MIRROR && TAPPED) TAPPED.push(mirrorBytes(op));
+        else if ((op.op === "tag" || op.op === "string") && VOCAB.includes(op.v)) {
+          const key = op.op + ":" + op.v;
+          const hex = Buffer.concat(TAPPED.slice(before)).toString("hex");
+          const first = OP_BYTES.get(key);
+          if (first === undefined) OP_BYTES.set(key, hex);
+          else if (first !== hex) viol("same-write-contributes-other-bytes-than-earlier-in-the-process", { op_index: i, op, first, now: hex });
+        }
       }
     } catch (e) {
-      threw = true;
       if (!after) viol("write-or-digest-threw-before-digest", { op_index: i, op, msg: String(e && e.message) });
     }
-    if (after && op.op !== "digest" && !threw) viol("write-after-digest-did-not-throw", { op_index: i, op });
   });
   const stream = streamAtDigest ?? Buffer.concat(TAPPED);
   TAPPED = null;
@@ -831,15 +855,17 @@ const isRef = (n) => n && typeof n.refName === "string" && typeof n.getNamedRunt
 function refsBelow(node, out, depth = 0) {
   if (!node || depth > 200) return out;
   if (isRef(node)) {
-    out.add(node.refName);
+    if (Array.isArray(out)) out.push(node.refName);
+    else out.add(node.refName);
     return out;
   }
   const ch = typeof node.describeChildren === "function" ? node.describeChildren() : [];
   for (const c of ch) refsBelow(c, out, depth + 1);
   return out;
 }
-// Number of simple paths through the graph of named types, starting from a parser (capped): the
-// input feature that identifies known finding KF-C13-1.
+// Number of simple paths through the graph of named types (a multigraph: one edge per occurrence of
+// a reference), starting from a parser (capped): the input feature that identifies known finding
+// KF-C13-1.
 function simplePathsFrom(parser, cap) {
   const root = parser && parser._runtype;
   if (!root) return 0;
@@ -848,7 +874,8 @@ function simplePathsFrom(parser, cap) {
   const edges = (name) => {
     let e = adj.get(name);
     if (!e) {
-      e = named && named[name] ? [...refsBelow(named[name], new Set())].sort() : [];
+      // every occurrence of a reference is an edge (the walks enter a named type once per occurrence)
+      e = named && named[name] ? refsBelow(named[name], []).sort() : [];
       adj.set(name, e);
     }
     return e;
@@ -872,7 +899,7 @@ function simplePathsFrom(parser, cap) {
     for (const t of edges(name)) walk(t);
     active.delete(name);
   };
-  for (const r of [...refsBelow(root, new Set())].sort()) walk(r);
+  for (const r of refsBelow(root, []).sort()) walk(r);
   return count;
 }
 
@@ -892,7 +919,23 @@ function denseFeature(moduleId, parser) {
   return paths;
 }
 
+// a type nested so deeply that walking it exhausts the stack (built with the b API)
+let DEEP = null;
+async function deepParser() {
+  try {
+    const { b } = await rt("b");
+    let t = b.Object({ leaf: b.String(), n: b.Number() });
+    for (let i = 0; i < 60000; i++) t = i % 2 ? b.Array(t) : b.Object({ a: b.String(), inner: t, z: b.Boolean() });
+    DEEP = t;
+  } catch {
+    DEEP = null;
+  }
+}
 async function execStability(mods, run) {
+  if (DEEP === null && !execStability.triedDeep) {
+    execStability.triedDeep = true;
+    await deepParser();
+  }
   const base = mods.find((m) => m.id === run.module);
   const out = { violations: [], hashed: 0, maxSteps: 0, stepTap: await installStepTap() };
   if (!base) return out;
@@ -902,7 +945,16 @@ async function execStability(mods, run) {
   const fresh = await pristine(base);
   const names = base.names;
   const recorded = [];
+  const cpu0 = process.cpuUsage();
   for (let i = 0; i < names.length; i++) {
+    // a module whose types unfold into tens of thousands of steps per call (each call within the
+    // step budget) is not hashed parser after parser for minutes: a few seconds of it are enough
+    const used = process.cpuUsage(cpu0);
+    if (i > 0 && (used.user + used.system) / 1e6 > 4) {
+      out.cutShort = names.length - i;
+      break;
+    }
+    if (run.heartbeat) run.heartbeat();
     const P = base.P[names[i]];
     let a, b, c, h32a, h32b, h32c;
     const step = (f) => {
@@ -916,6 +968,18 @@ async function execStability(mods, run) {
     try {
       a = step(() => P.hash256());
       h32a = step(() => P.hash());
+      // the fault: a hash256() / hash() call that dies half-way (stack exhausted on a very deep
+      // type) must leave nothing behind that later calls can see
+      if (i === 0 && DEEP) {
+        for (const f of ["hash256", "hash"]) {
+          try {
+            STEPS = -1e9;
+            DEEP[f]();
+          } catch (e) {
+            if (e instanceof RangeError) out.deepThrows = (out.deepThrows || 0) + 1;
+          }
+        }
+      }
       step(() => base.P[names[(i + 1) % names.length]].hash256());
       step(() => base.P[names[(i + 1) % names.length]].hash());
       b = step(() => P.hash256());
@@ -939,6 +1003,8 @@ async function execStability(mods, run) {
     if (a !== c || h32a !== h32c) viol("hash-differs-on-a-fresh-module-instance", { module: base.id, parser: names[i], first: a, fresh: c, first32: h32a, fresh32: h32c });
     recorded.push({ name: names[i], a, h32a });
   }
+  out.digests = Object.fromEntries(recorded.map((r) => [r.name, r.a + ":" + r.h32a]));
+  out.moduleId = base.id;
   // once more on another brand-new instance, in the opposite order: what a parser's hash is must
   // not depend on which parser of the module was hashed first
   if (recorded.length >= 2 && !out.budgetExceeded) {
@@ -977,14 +1043,17 @@ async function workerMain(prop) {
       STRESS_TOO = true;
       ctxs.mods = await loadModules();
       // stress modules first: they are part of the quick tier's first 200 modules
-      const isStress = (m) => (m.id.startsWith("stress_") ? 0 : 1);
-      ctxs.mods = [...ctxs.mods].sort((a, b) => isStress(a) - isStress(b));
+      // then the modules about the process environment, then every third module of the rest first
+      // (the index lists the corpus before the seeded synthetic projects)
+      const key = (m, i) => (m.id.startsWith("stress_") ? 0 : m.id.startsWith("env_") ? 1 : 2 + (i % 3));
+      ctxs.mods = ctxs.mods.map((m, i) => [key(m, i), i, m]).sort((a, b) => a[0] - b[0] || a[1] - b[1]).map((x) => x[2]);
       process.on("message", async (m) => {
         if (m.done) process.exit(0);
         try {
           const run = m.run ?? { module: ctxs.mods[m.index % ctxs.mods.length].id };
           process.send({ start: m.index, run });
-          const result = await execStability(ctxs.mods, run);
+          // the watchdog is about one call that never returns: it is re-armed before every parser
+          const result = await execStability(ctxs.mods, { ...run, heartbeat: () => process.send({ start: m.index, run }) });
           if (result.violations.length) result.run = run;
           process.send({ index: m.index, result });
         } catch (e) {
@@ -1124,7 +1193,14 @@ async function main() {
     }
     if (run.ops && run.ops[0] && run.ops[0].op === "hash256-stability") {
       const r = await alone(SELF, ["C13S"], { module: run.module }, 30000);
-      const hit = r.stalled ? "hash256-never-returns" : r.result && r.result.violations.find((v) => v.class === run.violation_class) ? run.violation_class : null;
+      let hit = r.stalled ? "hash256-never-returns" : r.result && r.result.violations.find((v) => v.class === run.violation_class) ? run.violation_class : null;
+      if (!hit && run.env && r.result) {
+        // the same module hashed by a process started in the recorded environment
+        const r2 = await alone(SELF, ["C13S"], { module: run.module }, 30000, run.env);
+        const here = r.result.digests || {};
+        const there = (r2.result && r2.result.digests) || {};
+        if (Object.keys(here).some((k) => there[k] !== undefined && there[k] !== here[k])) hit = "hash-depends-on-the-process-environment";
+      }
       if (hit) {
         console.log(`VIOLATION property=C13 replay=${a1} class=${hit}`);
         process.exit(1);
@@ -1235,6 +1311,7 @@ async function main() {
     const nMods = tier === "quick" ? Math.min(index.length, 200) : index.length;
     stability = { modules: nMods, parsers: 0, stalled: 0 };
     const st = [];
+    const baseDigests = new Map();
     try {
       await pool(SELF, ["C13S"], Array.from({ length: nMods }, (_, i) => i), workers, (i, r) => {
         stability.parsers += r.hashed || 0;
@@ -1242,8 +1319,31 @@ async function main() {
         stability.step_budget = STEP_BUDGET;
         stability.step_tap = !!r.stepTap;
         stability.calls_over_budget = (stability.calls_over_budget || 0) + (r.budgetExceeded || 0);
+        stability.parsers_left_out_after_4s_of_cpu_on_their_module = (stability.parsers_left_out_after_4s_of_cpu_on_their_module || 0) + (r.cutShort || 0);
+        stability.calls_that_died_of_stack_exhaustion_in_between = (stability.calls_that_died_of_stack_exhaustion_in_between || 0) + (r.deepThrows || 0);
+        baseDigests.set(i, r.digests || {});
         for (const v of r.violations) if (!agg.viol.has(v.class)) agg.viol.set(v.class, { index: -3, v, run: { ...r.run, ops: [{ op: "hash256-stability" }] } });
       }, (i, run) => st.push({ i, run }));
+      // The process environment as a seam: the same modules hashed by processes started under other
+      // locales (what Intl / localeCompare / toLocale* consult) and another time zone must give
+      // the same digests.
+      if (!st.length) {
+        stability.other_process_environments = [];
+        for (const env of [{ LC_ALL: "sv_SE.UTF-8", LANG: "sv_SE.UTF-8", TZ: "Pacific/Kiritimati" }, { LC_ALL: "cs_CZ.UTF-8", LANG: "cs_CZ.UTF-8", TZ: "America/St_Johns" }]) {
+          let compared = 0;
+          await pool(SELF, ["C13S"], Array.from({ length: nMods }, (_, i) => i), workers, (i, r) => {
+            const want = baseDigests.get(i) || {};
+            for (const [name, d] of Object.entries(r.digests || {})) {
+              if (want[name] === undefined) continue;
+              compared++;
+              if (want[name] !== d && !agg.viol.has("hash-depends-on-the-process-environment")) {
+                agg.viol.set("hash-depends-on-the-process-environment", { index: -3, v: { property: "C13", class: "hash-depends-on-the-process-environment", detail: { module: r.run ? r.run.module : i, parser: name, environment: env, here: want[name], there: d } }, run: { module: r.moduleId, env, ops: [{ op: "hash256-stability" }] } });
+              }
+            }
+          }, () => {}, 20000, env);
+          stability.other_process_environments.push({ env, digests_compared: compared });
+        }
+      }
     } catch (e) {
       console.log("HARNESS-ERROR: " + e.message);
       process.exit(2);
